@@ -724,6 +724,54 @@ fn reads_under_scheduler(ctx: &mut Ctx, stats: &mut ReadStats) {
 }
 
 
+/// Very large tick counts: a clock that has counted 2^53 .. 2^62 ticks (one buffer at an enormous speed) and then ticks slowly,
+/// a fraction of a tick per buffer. A sound scheduled a few ticks ahead must still begin in the buffer during which the clock
+/// reaches that tick (at most one buffer early): times are compared by whole ticks first, then by the fraction, not through a
+/// floating-point sum in which the fraction (and odd tick counts) are lost.
+fn huge_ticks_case(r: &mut Rng) -> Result<(), String> {
+	let sr = 1000u32;
+	let ibs = *r.pick(&[10usize, 5]);
+	let buf_s = ibs as f64 / sr as f64;
+	let mut rig = Rig::simple(sr, ibs);
+	let exp = r.usize_in(53, 62) as i32;
+	let mut clock = rig.mgr.add_clock(ClockSpeed::TicksPerSecond(2f64.powi(exp) / buf_s)).map_err(|_| "clock")?;
+	clock.start();
+	rig.callback(ibs);
+	let per_buffer = *r.pick(&[0.25f64, 0.125, 0.5]);
+	clock.set_speed(ClockSpeed::TicksPerSecond(per_buffer / buf_s), Tween { duration: Duration::ZERO, ..Default::default() });
+	rig.callback(ibs);
+	rig.sync();
+	let t0 = clock.time();
+	if t0.ticks < (1u64 << 52) {
+		return Err(format!("after one buffer at 2^{} ticks per buffer the clock reads {} ticks", exp, t0.ticks));
+	}
+	let k = r.usize_in(1, 3) as u64;
+	let target = (t0.ticks + k, 0.0f64);
+	let _s = rig.mgr.play(crate::probes::dc_sound(sr, 64, 0.25).loop_region(..).start_time(StartTime::ClockTime(ClockTime::from_ticks_u64(clock.id(), target.0)))).map_err(|_| "play")?;
+	let mut reached: Option<usize> = None;
+	let mut audible: Option<usize> = None;
+	let mut trace = vec![];
+	for b in 0..60 {
+		let out = rig.callback(ibs).to_vec();
+		if audible.is_none() && out.iter().any(|x| *x != 0.0) {
+			audible = Some(b);
+		}
+		rig.sync();
+		let t = clock.time();
+		trace.push((t.ticks - t0.ticks, t.fraction));
+		if reached.is_none() && (t.ticks > target.0 || (t.ticks == target.0 && t.fraction >= target.1)) {
+			reached = Some(b);
+		}
+		if reached.is_some() && audible.is_some() {
+			break;
+		}
+	}
+	match (reached, audible) {
+		(Some(br), Some(ba)) if ba + 1 >= br && ba <= br => Ok(()),
+		_ => Err(format!("clock at {} ticks (2^{} counted in one buffer), then {} ticks per buffer; a sound scheduled for tick +{}: the clock reaches that tick in buffer {:?}, the sound is first heard in buffer {:?} (clock after each buffer, ticks since scheduling / fraction: {:?})", t0.ticks, exp, per_buffer, k, reached, audible, &trace[..trace.len().min(14)])),
+	}
+}
+
 pub fn run(ctx: &mut Ctx) {
 	// monitor 1
 	let n1 = ctx.t(20_000u64, 2_000_000u64);
@@ -803,6 +851,28 @@ pub fn run(ctx: &mut Ctx) {
 		}
 	}
 	ctx.count("monitor2_frames_rendered", frames2);
+	// monitor 2b: scheduling at very large tick counts
+	let n2b = ctx.t(160u64, 16_000u64);
+	let mut huge = 0u64;
+	for i in 0..n2b {
+		if !ctx.owns("huge", i) {
+			continue;
+		}
+		let mut r = Rng::for_case(ctx.seed, 506, i);
+		ctx.eval();
+		crate::monitors::set_current(ctx, "huge", i, "scheduling at a very large tick count", false);
+		let res = super::guarded(|| huge_ticks_case(&mut r));
+		crate::monitors::clear_current();
+		match res {
+			Ok(Ok(())) => {
+				huge += 1;
+				ctx.distinct_key(0xC05_0006_0000_0000 | (i % 16));
+			}
+			Ok(Err(e)) => ctx.violation("huge", i, &e, J::Null),
+			Err(p) => ctx.violation("huge", i, &format!("panic: {}", p.first().map(|p| p.sig()).unwrap_or_default()), J::Null),
+		}
+	}
+	ctx.count("huge_tick_count_scheduling_cases", huge);
 	// monitor 3
 	let mut rs = ReadStats::default();
 	if ctx.only_case.as_ref().map(|(s, _)| s == "sched" || s == "rsched").unwrap_or(true) {
